@@ -654,6 +654,62 @@ macro_rules! parse_ma {
 parse_ma!(c10_parse_ma_len5, 5, 8, MA::SMA(7));
 parse_ma!(c10_parse_ma_len6, 6, 9, MA::EMA(12));
 
+/// non-ASCII text: a concrete ASCII head, `$free` symbolic ASCII bytes, then one symbolic multi-byte character of
+/// `$mb` bytes (any valid 2-/3-/4-byte UTF-8 sequence of that length class) and one symbolic ASCII tail byte:
+/// the parser must return (Ok or Err), never panic — byte-offset slicing of `&str` panics inside a character
+macro_rules! parse_ma_utf8 {
+	($name:ident, $head:expr, $free:expr, $mb:expr, $unw:expr) => {
+		#[kani::proof]
+		#[kani::unwind($unw)]
+		fn $name() {
+			const H: usize = $head.len();
+			const N: usize = H + $free + $mb + 1;
+			let mut b = [0u8; N];
+			let mut i = 0;
+			while i < H {
+				b[i] = $head[i];
+				i += 1;
+			}
+			while i < H + $free {
+				let c: u8 = kani::any();
+				kani::assume(c < 128);
+				b[i] = c;
+				i += 1;
+			}
+			// lead byte of the length class, then continuation bytes 0x80..=0xBF (over-long / surrogate forms excluded)
+			let lead: u8 = kani::any();
+			if $mb == 2 {
+				kani::assume(lead >= 0xC2 && lead <= 0xDF);
+			} else if $mb == 3 {
+				kani::assume(lead >= 0xE1 && lead <= 0xEC);
+			} else {
+				kani::assume(lead >= 0xF1 && lead <= 0xF3);
+			}
+			b[i] = lead;
+			i += 1;
+			while i < H + $free + $mb {
+				let c: u8 = kani::any();
+				kani::assume(c >= 0x80 && c <= 0xBF);
+				b[i] = c;
+				i += 1;
+			}
+			let tail: u8 = kani::any();
+			kani::assume(tail < 128);
+			b[i] = tail;
+			let s = unsafe { core::str::from_utf8_unchecked(&b[..]) };
+			let r = s.parse::<MA>();
+			assert!(r.is_err(), "a length with a non-ASCII character is rejected");
+			kani::cover!(true, "parser returned");
+		}
+	};
+}
+parse_ma_utf8!(c10_parse_ma_utf8_2byte_at6, b"ema-", 2, 2, 12);
+parse_ma_utf8!(c10_parse_ma_utf8_3byte_at5, b"ema-", 1, 3, 12);
+parse_ma_utf8!(c10_parse_ma_utf8_3byte_at6, b"sma-", 2, 3, 12);
+parse_ma_utf8!(c10_parse_ma_utf8_4byte_at6, b"linreg", 0, 4, 14);
+parse_ma_utf8!(c10_parse_ma_utf8_2byte_at7, b"trima-", 1, 2, 12);
+parse_ma_utf8!(c10_parse_ma_utf8_2byte_at3, b"sm", 1, 2, 10);
+
 /// exact length L (a symbolic length makes `to_ascii_lowercase` + `trim` run out of
 /// 16 GB already at L <= 3): one harness per length
 macro_rules! parse_source {
